@@ -29,6 +29,18 @@ CLAIMED = {
  "C15": dict(sec="8/C15", tech="Coq proof (shuffle is a content-independent permutation function of length and generator state) + exact schedule comparison + the property's statistical test as search/supporting evidence",
     text="Theorems: the processed order is a permutation of the queue; shuffling commutes with every relabelling of the items, so the permutation depends only on the batch length and the generator state (equal states give equal permutations). Exact equality of the implementation's schedules with the modelled rand 0.8.5 Fisher-Yates over Xoroshiro128** on thousands of seeded steps (batch sizes up to 64). Uniformity of the algorithm's index sampler and the Fisher-Yates bijection are not yet proved (partial, named); the statistical test (Bernstein bound, false alarm < 1e-9) runs on the implementation as supporting evidence and as the search for a failing input.",
     note="Trusted: as C08. Statistical quality of Xoroshiro128** output is outside any theorem. Axioms: none."),
+ "C09": dict(sec="8/C09", tech="Coq model of the whole simulation loop as a function of the seed (exact generator) + exact differential execution of agents and steps + runner determinism checks across processes and progress-bar branches",
+    text="The model's simulation (agents in order, then the step, n times, on one generator seeded through SplitMix64) is a Gallina function of seed, parameters and the two named oracles; the theorem states the dependence on the seed is only through the seeded generator state. That the implementation equals this function is established run by run: every agent update and every step of random compositions of the built-in agents is compared with the model, raw draws included. sim_runner / market_sim_runner on derive-macro agent sets are run twice, in a separate OS process, with and without the progress bar and as a hand-written loop, and complete outputs compared. 'Different seeds give different runs' is measured, not proved.",
+    note="Trusted: as C08, plus the oracles (log-normal table produced by the real rand_distr on the same stream; libm tanh through OCaml). Axioms: the four standard-library axioms Flocq's real-number theory brings (ClassicalDedekindReals.sig_forall_dec, sig_not_dec, FunctionalExtensionality.functional_extensionality_dep, Classical_Prop.classic) appear under Float-dependent definitions only."),
+ "C16": dict(sec="8/C16", tech="Coq model of the six agent update functions with exact generator and Flocq binary64 + differential execution + model-free monitor of every update",
+    text="Theorems: a draw is never below probability 0 and always below 1.0; the index sampler stays inside its half-open range (random agents' ticks and volumes); the price the noise/momentum helpers hand to the environment is a multiple of the tick size whatever the float pipeline produced, so their unwrap cannot abort on a price error (the repaired defect). The model of all agents (single- and multi-asset) is executed against the implementation call by call; monitor c16_ok checks every update's new orders (grid, tick/volume ranges, trader ids, buys <= mid <= sells, counts at probability 0 / >= 1, one live order per random trader) on implementation observations; an abort of the implementation where the model does not abort is a concrete violation. The float rounding lemma (floor/ceil to grid as real numbers) is not proved: partial, named.",
+    note="Trusted: as C09."),
+ "C17": dict(sec="8/C17", tech="Coq model (binary64 momentum recursion, tanh oracle) + exact differential execution on harness-imposed price paths + mirrored-run comparison",
+    text="Theorems: with M = 0 a trader submits nothing (state unchanged); the trading probability is computed through fabs and fabs forgets the sign, so negating the signal leaves the propensity unchanged. The implementation is compared with the model on imposed rising/falling/mixed/flat paths; the harness runs each path and its mirror image with one seed and requires the order flow to be mirrored exactly, directions to follow the sign of M recomputed from the path, and one limit plus one market order per trader at saturated demand.",
+    note="Trusted: as C09; tanh odd/monotone is an oracle assumption (sampled by the mirrored runs)."),
+ "C20": dict(sec="8/C20", tech="translator (macro source -> Coq shape facts, regenerated every run) + Coq proof that a macro of that shape expands to the in-order call sequence + dynamic comparison of derived and hand-written sets",
+    text="translators/macro_shapes.py re-reads crates/macros/src/lib.rs and regenerates Generated/MacroShapes.v (field-list source, loop header, bindings, guard, emitted tokens, generated method); Properties/C20.v proves the generated shapes are the canonical ones and that such a macro expands, for every field list, names and update functions, to the hand-written sequence (each named field once, in declaration order, on the shared threaded state; nesting flattens). Dynamically, 12 struct shapes (adversarial names, repeated types, nested sets) are compared call-by-call and draw-by-draw with the hand-written sequence for both macros.",
+    note="Trusted: the translator (a source change it does not recognise makes the theorem fail, never pass), rustc's macro expansion. Axioms: none."),
 }
 REASON_PENDING = "check under construction in this session (model and correspondence exist; theorem file not yet registered)"
 m = {
